@@ -60,7 +60,9 @@ impl Number for i32 {
         lhs.checked_add(rhs)
     }
     fn checked_mul(lhs: Self, rhs: i32) -> Option<Self> {
-        lhs.checked_mul(rhs)
+        // TeX.2021.105: the largest magnitude of an integer is 2^31-1,
+        // so a product of -2^31 is also an overflow.
+        lhs.checked_mul(rhs).filter(|result| *result != i32::MIN)
     }
     fn wrapping_mul(lhs: Self, rhs: i32) -> Self {
         lhs.wrapping_mul(rhs)
